@@ -70,6 +70,16 @@ def rand_scalar(rng, edge_p=0.3):
     return rng.randrange(Q)
 
 
+def distinct_scalars(rng, n, edge_p=0.1, avoid=()):
+    """n pairwise distinct scalars (some from the edge set), none in `avoid`"""
+    out = []
+    while len(out) < n:
+        x = rand_scalar(rng, edge_p) % Q
+        if x not in out and x not in avoid:
+            out.append(x)
+    return out
+
+
 def rand_nz(rng):
     return rng.randrange(1, Q)
 
@@ -341,7 +351,8 @@ def zlist(xs):
     return "[" + "; ".join(zlit(x) for x in xs) + "]"
 
 
-COQ_HEADER = ("From ZK Require Import Model.Field Model.Zq Model.QBls Model.Run.\n"
+COQ_HEADER = ("From ZK Require Import Model.Field Model.Zq Model.QBls Model.Pedersen Model.PS Model.Schnorr Model.Range "
+              "Model.Abacus Model.Amount Model.Ids Model.Wire Model.Codecs Model.Run.\n"
               "Open Scope Z_scope.\n")
 
 
